@@ -1348,7 +1348,66 @@ end Jwt.Generated
     return "Decisions.lean", text, {"functions": ["__setkey_check (builder)", "__setkey_check (checker)", "__verify_config_post"]}
 
 
-GENERATORS = [gen_base64, gen_alg, gen_common, gen_jwk, gen_ops, gen_cli, gen_conc, gen_ecframe, gen_ll, gen_base64code, gen_digests, gen_gates, gen_decisions]
+def gen_dispatch(repo, build):
+    """jwt.c jwt_sign / jwt_verify_sig: per algorithm the strength gate called, the primitive called, and that the gate comes first"""
+    src = open(os.path.join(repo, "libjwt/jwt.c")).read()
+    src = re.sub(r"/\*.*?\*/", " ", src, flags=re.S)
+    src = re.sub(r"//[^\n]*", " ", src)
+    tables = {}
+    for fn, prims in (("jwt_sign", ["sign_sha_hmac", "jwt_ops->sign_sha_pem"]), ("jwt_verify_sig", ["_verify_sha_hmac", "jwt_ops->verify_sha_pem"])):
+        body = func_body(src, r"\b%s\s*\([^)]*\)\s*\{" % fn)
+        m = re.search(r"switch\s*\(\s*jwt->alg\s*\)\s*\{", body)
+        if not m:
+            raise ExtractError("%s: switch (jwt->alg) not found" % fn)
+        sw = body[m.end():]
+        rows = []
+        for cm in re.finditer(r"((?:case\s+JWT_ALG_\w+\s*:\s*)+)(.*?)(?=case\s+JWT_ALG_|default\s*:)", sw, flags=re.S):
+            labels = re.findall(r"JWT_ALG_\w+", cm.group(1))
+            code = cm.group(2)
+            gates = [(g.start(), g.group(1)) for g in re.finditer(r"\b(__check_hmac|__check_key_bits)\s*\(\s*jwt\s*\)", code)]
+            calls = [(code.find(p_ + "("), p_) for p_ in prims if (p_ + "(") in re.sub(r"\s+", "", code) or (p_ + "(") in code]
+            calls = [(re.search(re.escape(p_) + r"\s*\(", code).start(), p_) for p_ in prims if re.search(re.escape(p_) + r"\s*\(", code)]
+            if len(gates) > 1 or len(calls) != 1:
+                raise ExtractError("%s: case %s: expected at most one gate call and one primitive call, found %r / %r" % (fn, labels, gates, calls))
+            if not gates:
+                # no gate in the case itself: it has to sit inside the primitive's own path (see verifyHmacVia)
+                for lab in labels:
+                    rows.append((lab, "-", calls[0][1], False))
+                continue
+            # the gate's failure must leave the case before the primitive is reached
+            gm = re.search(r"if\s*\(\s*%s\s*\(\s*jwt\s*\)\s*\)\s*(return\s+1\s*;|break\s*;)" % re.escape(gates[0][1]), code)
+            first = gm is not None and gates[0][0] < calls[0][0]
+            for lab in labels:
+                rows.append((lab, gates[0][1], calls[0][1], first))
+        tables[fn] = rows
+    vb = func_body(src, r"\b_verify_sha_hmac\s*\([^)]*\)\s*\{")
+    via = "jwt_sign" if re.search(r"\bjwt_sign\s*\(", vb) else ("sign_sha_hmac" if re.search(r"\bsign_sha_hmac\s*\(", vb) else "?")
+    kty_guard = re.search(r"jwt->key->kty\s*!=\s*JWK_KEY_TYPE_OCT\s*\|\|\s*_verify_sha_hmac\s*\(", func_body(src, r"\bjwt_verify_sig\s*\([^)]*\)\s*\{")) is not None
+
+    def tbl(rows):
+        return "[" + ", ".join('(.%s, "%s", "%s", %s)' % (ALG_LEAN[a], g, p_, "true" if f else "false") for a, g, p_, f in rows) + "]"
+    text = f"""/- GENERATED by tie/extract.py from libjwt/jwt.c (jwt_sign, jwt_verify_sig, _verify_sha_hmac) -- do not edit.
+   Per algorithm: the strength gate the case calls, the primitive it calls, and whether the gate's failure leaves the case
+   before the primitive is reached. Regenerated from /repo on every check run; Jwt/Props/C09.lean proves the dispatch. -/
+import Jwt.AlgType
+namespace Jwt.Generated
+
+def signDispatch : List (Alg × String × String × Bool) := {tbl(tables["jwt_sign"])}
+
+def verifyDispatch : List (Alg × String × String × Bool) := {tbl(tables["jwt_verify_sig"])}
+
+/-- what `_verify_sha_hmac` recomputes the MAC with (`jwt_sign` carries the HMAC size gate) -/
+def verifyHmacVia : String := "{via}"
+
+/-- `jwt_verify_sig` tests `key->kty != JWK_KEY_TYPE_OCT ||` before `_verify_sha_hmac` -/
+def verifyHmacKtyGuard : Bool := {"true" if kty_guard else "false"}
+
+end Jwt.Generated
+"""
+    return "DispatchTables.lean", text, {"jwt_sign": tables["jwt_sign"], "jwt_verify_sig": tables["jwt_verify_sig"], "verify_hmac_via": via, "kty_guard": kty_guard}
+
+
+GENERATORS = [gen_base64, gen_alg, gen_common, gen_jwk, gen_ops, gen_cli, gen_conc, gen_ecframe, gen_ll, gen_base64code, gen_digests, gen_gates, gen_decisions, gen_dispatch]
 
 
 def main():
